@@ -55,6 +55,13 @@ def cases(tier, seed, prop):
                     field_ = {'o': 'options', 'sn': 'snippets', 'vr': 'variables'}[kind]
                     gc.setdefault(dsy, {}).setdefault(field_, {})[key] = planted(kind, key, 'gsyntax').replace('gsyntax', 'foreign') if isinstance(planted(kind, key, 'gsyntax'), str) else planted(kind, key, 'gsyntax')
             out.append({'c': c, 'gc': gc, 'probes': probes, 'subset': subset, 'g': 'layers'})
+            if subset[0] or subset[1]:
+                c5 = copy.deepcopy(c); gc5 = copy.deepcopy(gc)
+                top5 = gc5[esy] if subset[1] else gc5[ety]
+                for field_ in ('options', 'snippets', 'variables'):
+                    for key in list(top5.get(field_, {})): top5[field_][key] = None
+                for field_ in ('options', 'snippets', 'variables'): c5.pop(field_, None)
+                out.append({'c': c5, 'gc': gc5, 'probes': probes, 'subset': (subset[0], subset[1], False), 'g': 'layers-null', 'nomodel': 1})
             if all(subset):
                 # two layers that say the same (whole tables equal by value) with a layer between them that says something else
                 for (lo, hi) in ((0, 2), (0, 1), (1, 2)):
@@ -75,6 +82,7 @@ def cases(tier, seed, prop):
 
 
 def req(case):
+    if case.get('nomodel'): return ';;ty~sy'
     enc = cfgcodec.encode(case['c'], case['gc'])
     if ';' not in enc: enc += ';'
     return '%s;%s' % (enc, '~'.join('%s:%s' % (k, hx(key)) for k, key in case['probes']) + '~ty~sy')
@@ -116,6 +124,7 @@ def run(case, prop):
         want, ty, sy = expected(case)
         for (kind, key), g_, w in zip(case['probes'], got, want):
             if g_ != w: viol.append('layer-order| %s key %r with type %r syntax %r, layers present (global type, global syntax, user) = %r: effective value %r, the most specific layer defining it has %r' % (kind, key, ty, sy, case['subset'], g_, w))
+        if case.get('nomodel'): raise StopIteration          # null values: the resolved tables are the whole observation (expanding null snippets / variables is outside the typed fragment)
         # the effective jsx.enabled is what the parser obeys (`Foo.Bar` is one component name under JSX, an element with a class otherwise)
         if ('o', 'jsx.enabled') in case['probes'] and ty == 'markup' and sy not in ('pug', 'slim', 'haml'):
             w_ = want[case['probes'].index(('o', 'jsx.enabled'))]
@@ -165,6 +174,7 @@ def run(case, prop):
                 if want3 not in o3: viol.append('expand-option| expand(div..bar, %r, %r) = %r: the effective jsx.enabled is %r, the prefixed value must be written %s' % (c3, gc, o3, cfg3.options.get('jsx.enabled'), want3))
         expand('a', c, gc)
     except RecursionError: raise
+    except StopIteration: pass
     except Exception as e:
         line = 'EXC ' + type(e).__name__; viol.append('raised| Config(%r, %r) / expand raised %s' % (case['c'], case['gc'], type(e).__name__))
     if c != c0 or gc != gc0: viol.append("caller-mutated| the caller's dictionaries were modified: %r -> %r" % ((c0, gc0), (c, gc)))
@@ -175,6 +185,7 @@ def run(case, prop):
 
 
 def compare(case, line, ml):
+    if case.get('nomodel'): return None
     return line == ml
 
 
